@@ -203,6 +203,44 @@ def check_clauses(ctx: Ctx, ws, W, c0, c1, md, lines, fn) -> None:
             return
 
 
+def check_sentence_clauses(ctx: Ctx, ws, W, i0, s0, ml, md, out: str) -> None:
+    """Sentence mode on the real wrapper: lossless, indents, bound (true columns)."""
+    from flowmark.linewrapping import sentence_split_regex as ss
+    tw = _flowmark()
+    case = {"fn": "line_wrap_by_sentence", "text": " ".join(ws), "W": W, "i0": i0, "s0": s0, "minLen": ml, "md": md}
+    lines = out.split("\n") if out else []
+    body = []
+    for i, l in enumerate(lines):
+        ind = i0 if i == 0 else s0
+        if not l.startswith(ind):
+            ctx.fail("INDENTS: line does not carry the configured indent", case, out)
+            return
+        body.append(l[len(ind):])
+    flat = [w for l in body for w in l.split(" ")] if body else []
+    ok = len(flat) == len(ws) and all(a == b or (md and a == tw.markdown_escape_word(b)) for a, b in zip(flat, ws))
+    if ws and not ok:
+        ctx.fail("S_LOSSLESS: sentence-mode output words differ from input words", case, out)
+        return
+    for i, l in enumerate(lines):
+        toks = body[i].split(" ")
+        if len(l) > W and len(toks) > 1:
+            merged = any(ss.heuristic_end_of_sentence(t) for t in toks[:-1])
+            known = "C05-semantic-merge-ignores-indent" if (merged and len(body[i]) <= W) else None
+            ctx.fail("S_BOUND: breakable line longer than width in sentence mode", case, {"line": l, "index": i}, known=known)
+            return
+
+
+def sentence_oracle(ctx: Ctx, n: int) -> None:
+    from flowmark.linewrapping import line_wrappers as lw
+    from props import c11
+    for _ in range(n):
+        ws, W, i0, s0, ml, md = c11.rand_case(ctx)
+        s0 = " " * len(i0) if ctx.rng.random() < 0.7 else s0
+        out = lw.line_wrap_by_sentence(width=W, min_line_len=ml, is_markdown=md)(" ".join(ws), i0, s0)
+        ctx.count(["sentence-oracle", ws, W, i0, s0, ml, md], nontrivial="\n" in out)
+        check_sentence_clauses(ctx, ws, W, i0, s0, ml, md, out)
+
+
 def replay_findings(ctx: Ctx) -> None:
     tw = _flowmark()
     for fid, e in ctx.kf.items():
@@ -211,6 +249,12 @@ def replay_findings(ctx: Ctx) -> None:
             n0 = len(ctx.failing)
             check_clauses(ctx, c["words"], c["W"], c["c0"], c["c1"], c["md"],
                           _py_fill(tw, c["words"], c["W"], c["c0"], c["c1"], c["md"]), "wrap_paragraph_lines")
+            ctx.count(["finding-replay", fid])
+        elif c.get("fn") == "line_wrap_by_sentence":
+            from flowmark.linewrapping import line_wrappers as lw
+            out = lw.line_wrap_by_sentence(width=c["W"], min_line_len=c["minLen"], is_markdown=c["md"])(c["text"], c["i0"], c["s0"])
+            still = any(len(l) > c["W"] and " " in l.strip() for l in out.split("\n"))
+            ctx.known_replay(fid, still)
             ctx.count(["finding-replay", fid])
 
 
@@ -223,6 +267,7 @@ def run(ctx: Ctx) -> None:
         tie_wraplines_para(ctx)
     else:
         search(ctx)
+    sentence_oracle(ctx, ctx.scale(4000, 60000))
     ctx.assume("word splitting of Markdown-aware splitter is C06's tie; here the simple splitter and supplied words")
 
 
